@@ -73,6 +73,10 @@ class FilterExpression(Expression):
         return _is_truthy(self.expression.evaluate(context))
 
     def _canonical_string(self, expression: Expression, parent_precedence: int) -> str:
+        if isinstance(expression, FilterExpression):
+            # A parenthesized expression. Parentheses are put back as needed.
+            return self._canonical_string(expression.expression, parent_precedence)
+
         if isinstance(expression, LogicalExpression):
             if expression.operator == "&&":
                 left = self._canonical_string(expression.left, PRECEDENCE_LOGICAL_AND)
